@@ -20,13 +20,17 @@ open Momo Momo.Probe
 /-- **refused growth falls back to the existing table.** If `Buckets::Create` of the larger bucket
 array fails (`refuseGrow`) and a table exists, `pvAdd` inserts into the existing newest bucket
 array: the outcome is success or "Hash table is full" (never `bad_alloc`), and it is "full" iff
-literally every bucket of that array is full. -/
-theorem C11_refused_growth_fallback (sp : Spec) (hf : Nat → Nat) (t : Table) (it : Item) (f : Faults)
+literally every bucket of that array is full. This holds in EVERY state — no invariant is assumed —, in particular in the
+overloaded states (`count ≥ capacity`, by any amount) that earlier refused growths leave behind: the sizing loop of
+`pvAddGrow`, which runs before the allocation, finds its size for every capacity rule that grows with the bucket count
+(`SpecOK.capMono`, `growLog_spec`). -/
+theorem C11_refused_growth_fallback (sp : Spec) (hf : Nat → Nat) (ok : SpecOK sp) (t : Table) (it : Item) (f : Faults)
     (g : Gen) (rest : List Gen) (hg : t.gens = g :: rest) (hov : sp.overloadIfCannotGrow = true)
     (hrg : f.refuseGrow = true) (hra : f.refuseAdd = false) :
     ((add sp hf t it f).2 = .ok ∨ (add sp hf t it f).2 = .full) ∧
-    ((add sp hf t it f).2 = .full ↔ ∀ b, b < 2 ^ g.L → isFull sp (bkt sp g.bs b) = true) :=
-  add_refused_fallback sp hf t it f g rest hg hov hrg hra
+    ((add sp hf t it f).2 = .full ↔ ∀ b, b < 2 ^ g.L → isFull sp (bkt sp g.bs b) = true) := by
+  obtain ⟨nl, hgl, _⟩ := growLog_spec sp ok t
+  exact add_refused_fallback sp hf t it f g rest hg hov hrg hra nl hgl
 
 /-- **`pvAddNogrow` fails iff every bucket is full**: the probe path of any home bucket visits all
 `2^L` buckets (C13), so "every slot on the probe path is taken" = "every bucket is full" — for
@@ -103,6 +107,55 @@ theorem C11_later_insert_completes (sp : Spec) (hf : Nat → Nat) (ok : SpecOK s
     (hcap : (add sp hf t it f).1.count ≤ (add sp hf t it f).1.cap) :
     (add sp hf t it f).1.gens.length = 1 :=
   add_completes sp hf ok t it f hI hk hstop hok hcap
+
+/-- **growth of an overloaded table reaches a capacity above the count.** Take ANY state satisfying the invariant in which
+`pvAdd` has to grow (`capacity ≤ count`): a full table, or a table overloaded by ANY number of refused growths, whose count
+may exceed the capacity of the next bucket count, of the one after it, … (`HashBucketUnlimP` with 16 buckets holds 128 items
+while 32 buckets are meant for 64). If this time the bucket array is granted (and the item creation does not throw), then
+for every migration outcome (`relocStop` arbitrary)
+* the insertion succeeds, the invariant holds and the contents are the old contents plus the new item (it refines the
+  abstract insertion);
+* the new bucket count `2^nl` is the FIRST one `≥ pvGetNewLogBucketCount()` whose capacity exceeds the old count
+  (`growLog`: the loop of HashSet.h:1135-1142), it is the newest generation, and `mCapacity` is its capacity;
+* hence the table is not overloaded any more: `count ≤ capacity` (`newCapacity > mCount` before `++mCount`) — the next
+  insertion needs no growth unless the count has reached the capacity exactly, as after every ordinary growth —
+  and by `C11_later_insert_completes` an uninterrupted migration then leaves one generation.
+(Before the repair 8fc462c the code took `nl = pvGetNewLogBucketCount()` and checked `capacity(nl) > count`: every
+insertion into such a state failed.) -/
+theorem C11_overloaded_growth_reaches_capacity (sp : Spec) (hf : Nat → Nat) (ok : SpecOK sp) (t : Table) (it : Item)
+    (f : Faults) (hI : TableInv sp hf t) (hF : FaultsOK sp f) (hk : ∀ x ∈ traverse t, x.key ≠ it.key)
+    (hov : t.cap ≤ t.count) (hrg : f.refuseGrow = false) (hra : f.refuseAdd = false) :
+    (add sp hf t it f).2 = .ok ∧
+    TableInv sp hf (add sp hf t it f).1 ∧ (traverse (add sp hf t it f).1).Perm (it :: traverse t) ∧
+    (add sp hf t it f).1.count = t.count + 1 ∧
+    t.count < (add sp hf t it f).1.cap ∧ (add sp hf t it f).1.count ≤ (add sp hf t it f).1.cap ∧
+    ∃ nl head olds, (add sp hf t it f).1.gens = head :: olds ∧ head.L = nl ∧
+      (add sp hf t it f).1.cap = capacityOf sp nl ∧ newLog sp t ≤ nl ∧
+      ∀ l, newLog sp t ≤ l → l < nl → capacityOf sp l ≤ t.count := by
+  obtain ⟨nl, _, hge, hgt, hmin, hok, hcnt, hcap, head, olds, hg, hL⟩ :=
+    add_grow_shape sp hf ok t it f hI.core hk hov hrg hra
+  obtain ⟨i1, i2⟩ := add_ok sp hf ok t it f hI hF hk hok
+  refine ⟨hok, i1, i2, hcnt, by rw [hcap]; exact hgt, by rw [hcap, hcnt]; omega,
+    nl, head, olds, hg, hL, hcap, hge, hmin⟩
+
+/-- **no insertion answers `std::invalid_argument`.** The only check `pvAdd` can fail after its lookup is
+`MOMO_CHECK(nextCapacity > newCapacity)` inside the sizing loop of `pvAddGrow` (HashSet.h:1140; model outcome `invalid`).
+For every bucket description with `SpecOK` (every bucket kind of the library: `mkSpec_ok`) it never fails — in ANY state
+(no invariant assumed: arbitrarily overloaded, any generations) and under ANY fault. The hypothesis that matters is
+`SpecOK.capMono`: `C11_invalid_only_if_capacity_stalls` shows the check fails only for a capacity rule that does not
+grow from some bucket count to the next. -/
+theorem C11_insert_after_overload_never_invalid (sp : Spec) (hf : Nat → Nat) (ok : SpecOK sp) (t : Table) (it : Item)
+    (f : Faults) : (add sp hf t it f).2 ≠ .invalid :=
+  add_never_invalid sp hf ok t it f
+
+/-- for an ARBITRARY capacity rule (no `SpecOK`): an insertion answers `invalid` only if the table has to grow and the
+capacity stalls at some bucket count `2^l ≥ 2^pvGetNewLogBucketCount()` that is still too small for the count — what the
+C15 probe with a capped `CalcCapacity` provokes — and then the table is unchanged -/
+theorem C11_invalid_only_if_capacity_stalls (sp : Spec) (hf : Nat → Nat) (t : Table) (it : Item) (f : Faults)
+    (h : (add sp hf t it f).2 = .invalid) :
+    (add sp hf t it f).1 = t ∧ t.cap ≤ t.count ∧
+    ∃ l, newLog sp t ≤ l ∧ capacityOf sp l ≤ t.count ∧ capacityOf sp (l + 1) ≤ capacityOf sp l :=
+  ⟨add_fail_unchanged sp hf t it f (by rw [h]; simp), add_invalid_stalls sp hf t it f h⟩
 
 /-- `Reserve` under every fault: a refused bucket array leaves the table unchanged, an interrupted
 migration keeps invariant and contents. PARTIAL: side condition `hF` as above. -/
@@ -198,5 +251,30 @@ example : TableInv exLimP4 id (run exLimP4 id {} exThreeGens).1.a :=
   (C11_history_partial exLimP4 id exLimP4_ok exThreeGens (by decide)).2.1.ia
 example : [1, 2, 3, 4, 5, 6, 7].map (findVal exLimP4 id (run exLimP4 id {} exThreeGens).1.a)
     = [some 10, some 20, some 30, some 40, some 50, some 60, none] := by decide
+
+/-- an overloaded `HashBucketUnlimP` table: first table of 1 bucket (capacity 2); after two insertions every growth is
+refused seven times: 9 items in 1 bucket, although 4 buckets (`pvGetNewLogBucketCount() = 2`) are meant for 8 -/
+def exUnl : Spec := Driver.HashTable.mkSpec "UnlimP" 0 8 8 false true true 0 0
+theorem exUnl_ok : SpecOK exUnl := mkSpec_ok_unlimP _ _ _ _ _ _ _ _
+def exOverload : List Op :=
+  [.ins false 1 10 {}, .ins false 2 20 {}] ++
+  ([3, 4, 5, 6, 7, 8, 9].map fun k => Op.ins false k (10 * k) { refuseGrow := true })
+
+example : (fun t : Table => (t.gens.map (·.L), t.count, t.cap)) (run exUnl id {} exOverload).1.a = ([0], 9, 2) := by decide
+example : (run exUnl id {} exOverload).2.map Res.outcome = List.replicate 9 .ok := by decide
+example : RunOK exUnl id {} exOverload := by decide
+/-- the size the old code asked for is too small for the count; the loop goes one step further -/
+example : newLog exUnl (run exUnl id {} exOverload).1.a = 2 ∧ capacityOf exUnl 2 = 8 ∧
+    growLog exUnl (run exUnl id {} exOverload).1.a = some 3 := by decide
+/-- the hypotheses of `C11_overloaded_growth_reaches_capacity` hold in this state (invariant by `C11_history_partial`,
+`capacity ≤ count`) and memory is back: 8 buckets, capacity 16 > 10 = count, one generation, every key found -/
+example : TableInv exUnl id (run exUnl id {} exOverload).1.a :=
+  (C11_history_partial exUnl id exUnl_ok exOverload (by decide)).2.1.ia
+example : (fun t : Table => (t.gens.map (·.L), t.count, t.cap))
+    (run exUnl id {} (exOverload ++ [.ins false 10 100 {}])).1.a = ([3], 10, 16) := by decide
+example : [1, 5, 9, 10, 11].map (findVal exUnl id (run exUnl id {} (exOverload ++ [.ins false 10 100 {}])).1.a)
+    = [some 10, some 50, some 90, some 100, none] := by decide
+/-- `C11_invalid_only_if_capacity_stalls` is not vacuous: a capacity rule with load factor 0 stalls at once -/
+example : (add { exUnl with cap := .ratio 0 1 } id emptyTable ⟨1, 10⟩ {}).2 = .invalid := by decide
 
 end Momo.HT
